@@ -117,34 +117,129 @@ Qed.
 Lemma RN_idem r : RN (RN r) = RN r.
 Proof. apply round_generic; auto with typeclass_instances. apply generic_format_round; auto with typeclass_instances. Qed.
 
+Local Instance mexp64 : Monotone_exp fexp64 := FLT_exp_monotone (-1074) 53.
+
+(* absolute rounding error by magnitude: half a unit in the last place of the binade *)
+Lemma RN_abs_err e x : Rabs x < bpow radix2 e -> Rabs (RN x - x) <= / 2 * bpow radix2 (fexp64 e).
+Proof.
+  intros Hx. destruct (Req_dec x 0) as [->|Nz].
+  - rewrite round_0; auto with typeclass_instances. rewrite Rminus_0_r, Rabs_R0. apply Rmult_le_pos; [lra|apply bpow_ge_0].
+  - apply Rle_trans with (1 := error_le_half_ulp radix2 fexp64 (fun z => negb (Z.even z)) x). apply Rmult_le_compat_l; [lra|].
+    rewrite ulp_neq_0 by exact Nz. apply bpow_le. apply cexp_le_bpow; auto with typeclass_instances.
+Qed.
+
+Lemma RN_abs_le k r : (fexp64 (k + 1) <= k)%Z -> Rabs r <= bpow radix2 k -> Rabs (RN r) <= bpow radix2 k.
+Proof. intros Hk Hr. apply abs_round_le_generic; auto with typeclass_instances. apply generic_format_bpow; exact Hk. Qed.
+
+Lemma RN_abs_finite k r : (fexp64 (k + 1) <= k)%Z -> (k < 1024)%Z -> Rabs r <= bpow radix2 k -> Rabs (RN r) < bpow radix2 1024.
+Proof. intros Hk Hlt Hr. apply Rle_lt_trans with (1 := RN_abs_le k r Hk Hr). apply bpow_lt. exact Hlt. Qed.
+
+Lemma F_plus_align e mx ex mo eo : (e <= ex)%Z -> (e <= eo)%Z -> F (mx * 2 ^ (ex - e) + mo * 2 ^ (eo - e)) e = F mx ex + F mo eo.
+Proof.
+  intros H1 H2. rewrite (F2R_change_exp radix2 e mx ex H1), (F2R_change_exp radix2 e mo eo H2).
+  unfold F2R. cbn [Fnum Fexp]. change (Z.pow (radix_val radix2)) with (Z.pow 2). rewrite plus_IZR. ring.
+Qed.
+
+(* the model computes the binary64 expression  RN (RN (RN (n / d) + RN off) * 10^6)  and rounds it to the nearest integer *)
+Lemma time_us_real n d off : (0 <= n)%Z -> (0 < d)%Z -> IZR n / IZR d <= bpow radix2 64 -> Rabs (IZR off) <= bpow radix2 63 ->
+  exists my ey, time_us n d off = Some (rne_int my ey) /\ F my ey = RN (RN (RN (IZR n / IZR d) + RN (IZR off)) * 1000000).
+Proof.
+  intros Hn Hd Hq Ho. destruct d as [|pd|pd]; try lia. unfold time_us, read_ts.
+  replace (n <? 0)%Z with false by (symmetry; apply Z.ltb_ge; exact Hn). change ((Z.pos pd <=? 0)%Z) with false. cbn [orb]. cbv iota.
+  change (Z.to_pos (Z.pos pd)) with pd.
+  assert (Hd1 : 0 < IZR (Z.pos pd)) by (apply IZR_lt; lia).
+  assert (Hq0 : 0 <= IZR n / IZR (Z.pos pd)) by (apply Rmult_le_pos; [apply IZR_le; exact Hn|apply Rlt_le, Rinv_0_lt_compat; exact Hd1]).
+  set (X := RN (IZR n / IZR (Z.pos pd))).
+  assert (HX : 0 <= X <= bpow radix2 64) by (apply (RN_range 64); [vm_compute; discriminate|split; assumption]).
+  assert (Hx : exists mx ex, sf_dyadic (match n with Zpos pn => rn_div pn pd | _ => S754_zero false end) = Some (mx, ex) /\ F mx ex = X).
+  { destruct n as [|pn|pn]; try lia.
+    - exists 0%Z, 0%Z. split; [reflexivity|]. unfold X, Rdiv. rewrite Rmult_0_l, round_0, F2R_0; auto with typeclass_instances.
+    - apply rn_div_spec. apply (RN_finite 64); [vm_compute; discriminate|lia|split; assumption]. }
+  destruct Hx as (mx & ex & Hdx & HFx). rewrite Hdx. cbn [obind].
+  set (O := RN (IZR off)).
+  destruct (rn_z_spec off 0) as (mo & eo & Hdo & HFo).
+  { rewrite F_int. apply (RN_abs_finite 63); [vm_compute; discriminate|lia|exact Ho]. }
+  rewrite F_int in HFo. fold O in HFo. rewrite Hdo. cbn [obind].
+  assert (HO : Rabs O <= bpow radix2 63) by (apply RN_abs_le; [vm_compute; discriminate|exact Ho]).
+  set (e := Z.min ex eo).
+  assert (Hs : F (mx * 2 ^ (ex - e) + mo * 2 ^ (eo - e)) e = X + O) by (rewrite F_plus_align, HFx, HFo by (unfold e; lia); reflexivity).
+  assert (Hsum : Rabs (X + O) <= bpow radix2 65).
+  { apply Rle_trans with (1 := Rabs_triang _ _). rewrite (Rabs_pos_eq X) by lra.
+    replace (bpow radix2 65) with (bpow radix2 64 + bpow radix2 64) by (change 65%Z with (64 + 1)%Z; rewrite bpow_plus; simpl; lra).
+    apply Rplus_le_compat; [lra|]. apply Rle_trans with (1 := HO). apply bpow_le. lia. }
+  destruct (rn_z_spec (mx * 2 ^ (ex - e) + mo * 2 ^ (eo - e)) e) as (mt & et & Hdt & HFt).
+  { rewrite Hs. apply (RN_abs_finite 65); [vm_compute; discriminate|lia|exact Hsum]. }
+  rewrite Hs in HFt. set (TS := RN (X + O)) in *.
+  assert (HTS : Rabs TS <= bpow radix2 65) by (apply RN_abs_le; [vm_compute; discriminate|exact Hsum]).
+  unfold write_us. rewrite Hdt. cbn [obind].
+  assert (Hp : F (mt * 1000000) et = TS * 1000000) by (rewrite <- HFt; unfold F2R; cbn [Fnum Fexp]; rewrite mult_IZR; ring).
+  destruct (rn_z_spec (mt * 1000000) et) as (my & ey & Hdy & HFy).
+  { rewrite Hp. apply (RN_abs_finite 85); [vm_compute; discriminate|lia|].
+    rewrite Rabs_mult, (Rabs_pos_eq 1000000) by lra. change 85%Z with (65 + 20)%Z. rewrite bpow_plus.
+    apply Rmult_le_compat; [apply Rabs_pos|lra|exact HTS|simpl; lra]. }
+  rewrite Hp in HFy. rewrite Hdy. cbn [obind]. exists my, ey. split; [reflexivity|exact HFy].
+Qed.
+
 (* ticks that denote a whole number m of microseconds (ticks / divisor = m / 10^6), m < 2^51 (the year 2041), no offset:
    the writer writes m -- whatever the resolution *)
 Theorem time_us_whole n d m : (0 < n)%Z -> (0 < d)%Z -> (n * 1000000 = m * d)%Z -> (m < 2 ^ 51)%Z -> time_us n d 0 = Some m.
 Proof.
-  intros Hn Hd Heq Hm. destruct n as [|pn|pn]; try lia. destruct d as [|pd|pd]; try lia.
+  intros Hn Hd Heq Hm.
   assert (Hm1 : (1 <= m)%Z) by nia.
   assert (HR : 1 <= IZR m <= 2251799813685247) by (split; apply IZR_le; lia).
-  assert (Hq : IZR (Zpos pn) / IZR (Zpos pd) = IZR m / 1000000).
-  { assert (Hpd : 0 < IZR (Zpos pd)) by (apply IZR_lt; lia). apply (f_equal IZR) in Heq. rewrite !mult_IZR in Heq. field_simplify_eq; lra. }
-  destruct (there_and_back (IZR m) HR) as [Herr [Hx0 Hx1]]. set (x := RN (IZR m / 1000000)) in *. set (y := RN (x * 1000000)) in *.
-  unfold time_us, read_ts. change ((Z.pos pn <? 0) || (Z.pos pd <=? 0)) with false. cbv iota. change (Z.to_pos (Z.pos pd)) with pd.
-  destruct (rn_div_spec pn pd) as (mx & ex & Hdx & HFx).
-  { rewrite Hq. apply (RN_finite 60); [vm_compute; discriminate|lia|]. split; [lra|]. simpl. lra. }
-  rewrite Hq in HFx. fold x in HFx. rewrite Hdx. cbn [obind]. change (sf_dyadic (rn_z 0 0)) with (Some (0%Z, 0%Z)). cbn [obind].
-  set (e := Z.min ex 0). rewrite Z.mul_0_l, Z.add_0_r.
-  assert (Hs : F (mx * 2 ^ (ex - e)) e = x) by (rewrite <- HFx; symmetry; apply (F2R_change_exp radix2 e mx ex); unfold e; lia).
-  assert (Hxb : Rabs x < bpow radix2 1024).
-  { rewrite Rabs_pos_eq by lra. apply Rle_lt_trans with (1 := Hx1). apply bpow_lt. lia. }
-  destruct (rn_z_spec (mx * 2 ^ (ex - e)) e) as (mt & et & Hdt & HFt).
-  { rewrite Hs. unfold x. rewrite RN_idem. exact Hxb. }
-  rewrite Hs in HFt. unfold x in HFt at 1. rewrite RN_idem in HFt. fold x in HFt.
-  unfold write_us. rewrite Hdt. cbn [obind].
-  assert (Hp : F (mt * 1000000) et = x * 1000000) by (rewrite <- HFt; unfold F2R; cbn [Fnum Fexp]; rewrite mult_IZR; ring).
-  destruct (rn_z_spec (mt * 1000000) et) as (my & ey & Hdy & HFy).
-  { rewrite Hp. apply (RN_finite 80); [vm_compute; discriminate|lia|]. split; [lra|].
-    apply Rle_trans with (bpow radix2 60 * bpow radix2 20); [|rewrite <- bpow_plus; apply bpow_le; lia].
-    apply Rmult_le_compat; try lra. simpl. lra. }
-  rewrite Hp in HFy. fold y in HFy. rewrite Hdy. cbn [obind]. f_equal. apply rne_int_spec. rewrite HFy. exact Herr.
+  assert (Hq : IZR n / IZR d = IZR m / 1000000).
+  { assert (Hpd : 0 < IZR d) by (apply IZR_lt; lia). apply (f_equal IZR) in Heq. rewrite !mult_IZR in Heq. field_simplify_eq; lra. }
+  destruct (there_and_back (IZR m) HR) as [Herr [Hx0 Hx1]].
+  destruct (time_us_real n d 0) as (my & ey & Ht & HF); [lia|exact Hd| |rewrite Rabs_R0; apply bpow_ge_0|].
+  { rewrite Hq. apply Rle_trans with (bpow radix2 60); [|apply bpow_le; lia]. simpl. lra. }
+  rewrite Ht. f_equal. apply rne_int_spec. rewrite HF, Hq.
+  rewrite (round_0 radix2 fexp64 ZnearestE), Rplus_0_r, RN_idem. exact Herr.
+Qed.
+
+(* seconds plus a fraction: legacy pcap's  tv_sec + tv_usec / 1e6  and pcapng's  if_tsoffset + ticks / 10^6  for ticks below a second *)
+Lemma sec_plus_micro S r : 0 <= S <= 4294967294 -> 0 <= r <= 999999 / 1000000 ->
+  Rabs (RN (RN (RN r + S) * 1000000) - (S + r) * 1000000) < / 2.
+Proof.
+  intros HS Hr.
+  pose proof (RN_abs_err 0 r) as E1. rewrite (Rabs_pos_eq r) in E1 by lra. change (fexp64 0) with (-53)%Z in E1.
+  assert (B0 : bpow radix2 0 = 1) by reflexivity. assert (B53 : bpow radix2 (-53) = / 9007199254740992) by (simpl; lra).
+  rewrite B0, B53 in E1. specialize (E1 ltac:(lra)). apply Rabs_le_inv in E1.
+  destruct (RN_range 0 r ltac:(vm_compute; discriminate) ltac:(rewrite B0; lra)) as [X0 X1]. rewrite B0 in X1.
+  set (X := RN r) in *.
+  assert (B32 : bpow radix2 32 = 4294967296) by (simpl; lra).
+  pose proof (RN_abs_err 32 (X + S)) as E2. rewrite (Rabs_pos_eq (X + S)) in E2 by lra. change (fexp64 32) with (-21)%Z in E2.
+  assert (B21 : bpow radix2 (-21) = / 2097152) by (simpl; lra). rewrite B32, B21 in E2. specialize (E2 ltac:(lra)). apply Rabs_le_inv in E2.
+  destruct (RN_range 32 (X + S) ltac:(vm_compute; discriminate) ltac:(rewrite B32; lra)) as [T0 T1]. rewrite B32 in T1.
+  set (TS := RN (X + S)) in *.
+  assert (B52 : bpow radix2 52 = 4503599627370496) by (simpl; lra).
+  pose proof (RN_abs_err 52 (TS * 1000000)) as E3. rewrite (Rabs_pos_eq (TS * 1000000)) in E3 by lra. change (fexp64 52) with (-1)%Z in E3.
+  assert (B1 : bpow radix2 (-1) = / 2) by (simpl; lra). rewrite B52, B1 in E3. specialize (E3 ltac:(lra)). apply Rabs_le_inv in E3.
+  apply Rabs_def1; lra.
+Qed.
+
+Lemma RN_small_int z : (Z.abs z <= 2 ^ 53)%Z -> RN (IZR z) = IZR z.
+Proof.
+  intros Hz. apply round_generic; auto with typeclass_instances. rewrite <- F_int.
+  destruct (Z.eq_dec (Z.abs z) (2 ^ 53)) as [E|N].
+  - assert (Hz2 : z = (2 ^ 53)%Z \/ z = (- 2 ^ 53)%Z) by lia. rewrite F_int.
+    destruct Hz2 as [-> | ->].
+    + change (IZR (2 ^ 53)) with (IZR (Zpower radix2 53)). rewrite IZR_Zpower by lia. apply generic_format_bpow. vm_compute. discriminate.
+    + rewrite opp_IZR. apply generic_format_opp. change (IZR (2 ^ 53)) with (IZR (Zpower radix2 53)). rewrite IZR_Zpower by lia. apply generic_format_bpow. vm_compute. discriminate.
+  - apply (generic_format_FLT radix2 (-1074) 53). apply (FLT_spec radix2 (-1074) 53 _ (Float radix2 z 0)); [reflexivity|cbn [Fnum]; change (Zpower radix2 53) with (2 ^ 53)%Z; lia|cbn [Fexp]; lia].
+Qed.
+
+(* s seconds (up to 2106-02-07) and u microseconds: exported as s * 10^6 + u *)
+Theorem time_us_sec_micro s u : (0 <= s <= 4294967294)%Z -> (0 <= u < 1000000)%Z -> time_us u 1000000 s = Some (s * 1000000 + u)%Z.
+Proof.
+  intros Hs Hu.
+  assert (HS : 0 <= IZR s <= 4294967294) by (split; apply IZR_le; lia).
+  assert (HU : 0 <= IZR u <= 999999) by (split; apply IZR_le; lia).
+  destruct (time_us_real u 1000000 s) as (my & ey & Ht & HF); [lia|lia| | |].
+  { apply Rle_trans with 1; [lra|]. simpl. lra. }
+  { rewrite Rabs_pos_eq by lra. apply Rle_trans with (bpow radix2 32); [simpl; lra|apply bpow_le; lia]. }
+  rewrite Ht. f_equal. apply rne_int_spec. rewrite HF, (RN_small_int s) by lia.
+  rewrite plus_IZR, mult_IZR. replace (IZR s * 1000000 + IZR u) with ((IZR s + IZR u / 1000000) * 1000000) by (field).
+  apply sec_plus_micro; lra.
 Qed.
 
 Theorem time_us_zero d : (0 < d)%Z -> time_us 0 d 0 = Some 0%Z.
@@ -167,3 +262,16 @@ Qed.
 (* the instant of the finding fixed by 8eef5f1: 2039, if_tsresol 7 *)
 Example time_us_2039 : time_us 21797302000623990 10000000 0 = Some 2179730200062399%Z.
 Proof. vm_compute. reflexivity. Qed.
+
+(* legacy pcap: microsecond files up to 2106, nanosecond files (whole microseconds) up to 2041 *)
+Theorem legacy_micro sec u : (0 <= sec <= 4294967294)%Z -> (0 <= u < 1000000)%Z -> legacy_us false sec u = Some (sec * 1000000 + u)%Z.
+Proof. exact (time_us_sec_micro sec u). Qed.
+
+Theorem legacy_nano sec u : (0 <= sec)%Z -> (0 <= u < 1000000)%Z -> (0 < sec * 1000000 + u < 2 ^ 51)%Z -> legacy_us true sec (u * 1000) = Some (sec * 1000000 + u)%Z.
+Proof. intros Hs Hu Hm. unfold legacy_us. apply time_us_whole; lia. Qed.
+
+Theorem legacy_all sec u : (0 <= sec)%Z -> (0 <= u < 1000000)%Z -> (0 < sec * 1000000 + u < 2 ^ 51)%Z ->
+  legacy_us false sec u = Some (sec * 1000000 + u)%Z /\ legacy_us true sec (u * 1000) = Some (sec * 1000000 + u)%Z /\ time_us (sec * 1000000 + u) 1000000 0 = Some (sec * 1000000 + u)%Z.
+Proof.
+  intros Hs Hu Hm. split; [apply legacy_micro; lia|]. split; [apply legacy_nano; assumption|]. apply time_us_whole; lia.
+Qed.
